@@ -661,7 +661,7 @@ pub fn check_request(ctx: &mut Ctx, rng: &mut Rng, corpus: &Corpus, nodes: &[Nod
                         }
                     }
                     // a single top-level terms ordered by _key (ascending or descending): exact under truncation (Lean decides applicability)
-                    if nodes.len() == 1 && matches!(nodes[0].agg, Agg::Terms { .. }) && !mparts.is_empty() {
+                    if nodes.iter().any(|n| matches!(n.agg, Agg::Terms { .. } | Agg::Filter { .. })) && !mparts.is_empty() {
                         let ka = ctx.model.ask(&format!("C14 keyasc {} {}", nodes_to_lean(nodes, true, &ranks), parts_to_lean(&corpus.docs, &mparts, &ranks)));
                         if ka == "same" {
                             ctx.report.count("model:terms-key-order-exact-compared");
